@@ -78,6 +78,13 @@ class CtxSimpleOpWriteHandler(AbstractWriteHandler):
             if real_handler_ty == SimpleSimpleOpWriteHandler:
                 return real_handler_ty(exits[0].target_vertex, self.decompiler, handler).write_content(ctx)  # type: ignore
 
+            if real_handler_ty.__name__ in (
+                "MesageSwitchSimpleOpWriteHandler",
+                "MesageSwitchCasesSimpleOpWriteHandler",
+            ):
+                # (a with block takes one simple statement)
+                raise ValueError("lives/performer/object blocks must not contain message switches.")
+
         # Fall back to `with` block syntax
         self.decompiler.write_stmnt(f"with ({ctx})")
 
